@@ -12,6 +12,10 @@ Signers0 == {[sid |-> sd, sigKey |-> k, sigOver |-> so, attrs |-> sh.attrs, ctat
 (* that are consistently SHA-1 (digest algorithm, message digest, RSA-SHA1 signature by the right key)                                    *)
 HonestBase == {HonestSigner(n, ct, m) : n \in {"A", "B"}, ct \in {"data", "spc"}, m \in {"m1", "m2"}}
 Extra == {[s EXCEPT !.unauth = u] : s \in HonestBase, u \in {"m1", "m2"}} \cup {[s EXCEPT !.alg = "sha1"] : s \in HonestBase}
+         \* a nested signature (unauthenticated attribute 1.3.6.1.4.1.311.2.4.1 holding a complete, genuine SignedData by the named signer over
+         \* some content) hung onto a signer info made with another key, and onto an honest one: what nobody signed decides nothing
+         \cup {[s EXCEPT !.sigKey = "k3", !.unauth = u] : s \in HonestBase, u \in {"nested_m1", "nested_m2"}}
+         \cup {[s EXCEPT !.unauth = "nested_m2"] : s \in HonestBase}
          \* the CA-issued certificate: honest signer infos naming its issuer + serial, and the same naming its subject + serial instead
          \cup {HonestSigner("Ca", ct, m) : ct \in {"data", "spc"}, m \in {"m1", "m2"}}
          \cup {[HonestSigner("Ca", ct, m) EXCEPT !.sid = "CaSub"] : ct \in {"data", "spc"}, m \in {"m1", "m2"}}
